@@ -40,12 +40,19 @@ MultiEntries(bases, ty) ==
         LET b == bases[((n - 1) \div 6) + 1]
             m == M(AllForms[((n - 1) % 6) + 1], ty) IN
         <<KeyName(b, m), StrNode(BaseSym(b) \o <<"DASH">> \o FormText(m))>>]
-MultiFile == MapNode(MultiEntries(MultiTop, "cardinal") \o << <<"g", MapNode(MultiEntries(MultiNested, "ordinal"))>> >>)
+\* plus: a plural `d` written in the default locale only (explicitly `"d": null` elsewhere: a reference to a key that is absent from its own locale is an error) and, in every locale, keys e1..e10 that fix its
+\* count through a foreign key: the form is the one the rules of the locale BEING RENDERED give, not those of the locale the forms
+\* were written in
+DForms == [n \in 1..6 |-> <<KeyName("d", M(AllForms[n], "cardinal")), StrNode(<<"d", "DASH">> \o FormText(M(AllForms[n], "cardinal")))>>]
+FkCountTo(b, i) == <<"DOL", "t", "LP", b, "COMMA", "SP", "LB", "QUOT", "c", "o", "u", "n", "t", "QUOT", "COLON", "SP">> \o CountSym[i] \o <<"RB", "RP">>
+EKeys == [i \in DOMAIN CountToks |-> <<"e" \o ToString(i), StrNode(FkCountTo("d", i))>>]
+MultiFileOf(loc) == MapNode(MultiEntries(MultiTop, "cardinal") \o << <<"g", MapNode(MultiEntries(MultiNested, "ordinal"))>> >>
+                            \o (IF loc = "en" THEN DForms ELSE << <<"d", NullNode>> >>) \o EKeys)
 MultiCase ==
     [family |-> "plurals-multi",
      abs |-> [multi |-> TRUE, top |-> MultiTop, nested |-> MultiNested],
      cfg |-> [default |-> "en", locales |-> Locs],
-     files |-> [j \in DOMAIN Locs |-> <<Locs[j], MultiFile>>]]
+     files |-> [j \in DOMAIN Locs |-> <<Locs[j], MultiFileOf(Locs[j])>>]]
 
 CaseOf(members, baseIsKey) ==
     [family |-> "plurals",
